@@ -513,6 +513,9 @@ fn explore_world(rep: &mut Report, root: &Path, exe: &Path, tag: &str, w: &World
                 }
             }
             frontier = next;
+            if std::env::var("VERIF_SCHED_TRACE").is_ok() {
+                eprintln!("[trace] {} {} pbound {} level {}: frontier {} prefixes, {} elements, {} choice points in schedule []", w.name, cb, pbound, _level, frontier.len(), frontier.iter().map(|q| q.len()).sum::<usize>(), oc.choices.len());
+            }
             if frontier.len() >= 4 * threads() {
                 break;
             }
@@ -521,6 +524,11 @@ fn explore_world(rep: &mut Report, root: &Path, exe: &Path, tag: &str, w: &World
         rep.transitions += singles;
         rep.states += singles;
         jobs.push(json!({"callback": cb, "roots": roots, "baseline": baseline}));
+    }
+    let large = sched::LARGE_INLINE.swap(0, std::sync::atomic::Ordering::SeqCst);
+    if large > 0 {
+        // (counted over the baseline and split executions of this process)
+        rep.count(&format!("note:regions-of-more-than-{}-items-outside-the-warm-up-run-in-item-order", sched::MAX_PERMUTED_REGION), large);
     }
     // farm out: split every job's roots round-robin over the workers
     let nw = threads();
